@@ -53,7 +53,7 @@ def run_e2e(ctx, n, tag):
     shapes = {}
     rows = 0
     for (name, text, g), (rc, so, se) in zip(jobs, common.pmap(one, jobs)):
-        if rc != 0 or so.strip().endswith("timeout"):
+        if rc != 0 or "timeout" in so.split("\n"):
             continue
         for k, v in g.shapes.items():
             shapes[k] = shapes.get(k, 0) + v
